@@ -217,6 +217,9 @@ def judge(hist, key, history_genuine_same=True):
 
 
 def replay(case: dict) -> list[str]:
+    if case.get("state") == "short":
+        pp = _work_short((bytes.fromhex(case["payload"] or "00")[0],))
+        return [v["what"] for v in pp.v if case["payload"] in v["what"] or not case["payload"]]
     if case.get("state") == "collision":
         pp = _work_collisions(0)
         return [v["what"] for v in pp.v]
@@ -333,6 +336,47 @@ def _work(task) -> core.Part:
     return p
 
 
+def _work_short(task) -> core.Part:
+    """Every payload of 0, 1 and 2 octets (and the 3-octet payloads that start like a list header) on a fresh AutoDecoder:
+    None exactly when no individual decoder accepts it, otherwise the result of the decoder named afterwards."""
+    hi, = task
+    from han import autodecoder
+
+    p = core.Part()
+    names = list(autox.DECODER_NAMES)
+    payloads = [bytes([hi])] + [bytes([hi, lo]) for lo in range(256)]
+    if hi == 0:
+        payloads.append(b"")
+    if hi in (1, 2):
+        payloads += [bytes([hi, n, x]) for n in (0, 1, 2, 3) for x in range(256)]
+    for pl in payloads:
+        ind = individual(pl)
+        acc = [i for i, x in enumerate(ind) if x[0] == "ok"]
+        a = autodecoder.AutoDecoder()
+        k, res, _ = budget.run_budget(lambda: a.decode_message_payload(pl), budget.budget_for(len(pl)) * 8)
+        p.add("transitions")
+        p.add("short_payloads")
+        m = None
+        if k != "ok":
+            m = f"decode_message_payload did not return normally ({k})" if acc else None
+        elif res is None and acc:
+            m = f"result None although {[names[i] for i in acc]} accept the payload"
+        elif res is not None and not acc:
+            m = f"result {res!r:.60} although no individual decoder accepts"
+        elif res is not None:
+            after = a.previous_success_decoder
+            if after not in names or ind[names.index(after)][0] != "ok" or not same_result(ind[names.index(after)][1], res):
+                m = f"result is not the result of the decoder named afterwards ({after})"
+        if res is not None:
+            p.add("decoded")
+        p.out("accepted" if acc else "rejected")
+        if m:
+            p.viol("autodecoder", f"autodecoder:short:{pl.hex()}:{m[:40]}", f"fresh AutoDecoder, payload {pl.hex() or '(empty)'}: {m}", {"state": "short", "payload": pl.hex()}, size=len(pl))
+            if p.full("autodecoder"):
+                break
+    return p
+
+
 def _work_generated(task) -> core.Part:
     """Every generated well-formed list on a fresh AutoDecoder, on one that remembers the list's own decoder, and on one
     that remembers each of the other decoders."""
@@ -415,6 +459,7 @@ def main(run: core.Run) -> int:
     run.log(f"fixpoint: {len(seen)} states, {edges} transitions; histories <= 3 over {len(sub)} events")
     run.merge(par.pmap(_work_seq, [(f, sub, table) for f in sub], seed=run.seed))
     run.merge(par.pmap(_work_collisions, [0], seed=run.seed))
+    run.merge(par.pmap(_work_short, [(hi,) for hi in range(256)], seed=run.seed))
     gx = sorted(generated_pool())
     run.log(f"generated well-formed lists: {len(gx)} messages x 8 histories")
     run.merge(par.pmap(_work_generated, [(gx[i::64],) for i in range(64)], seed=run.seed))
@@ -425,6 +470,7 @@ def main(run: core.Run) -> int:
     run.bounds = {"pool": len(keys), "genuine": len(gen), "remembered_decoders_reached": sorted(str(s) for s in names_seen), "fixpoint": closed, "bfs_levels": level}
     run.assumptions = ["the AutoDecoder's future depends only on its snapshotted attributes, so the BFS over remembered-decoder states closes and covers histories of any length over the pool",
                        "accept/reject of the individual decoders is observed by calling the seven public functions directly"]
+    run.bounds["short_payloads"] = "all payloads of 0..2 octets, and 3-octet payloads 01/02 + element count 0..3 + any octet, on a fresh AutoDecoder"
     run.bounds["generated_lists"] = f"{len(gx)} lists from the C07-C09 shape generators x (fresh + 7 remembered decoders)"
     run.bounds["histories"] = f"all {len(sub)}^3 sequences of length 3 (and their prefixes) over a {len(sub)}-event sub-pool, replayed on one live object"
     nseq = tot.c.get("sequences", 0)
